@@ -8,6 +8,7 @@ import (
 	"go/token"
 	"go/types"
 	"path/filepath"
+	"sort"
 	"strings"
 
 	"bebopverif/internal/core"
@@ -689,6 +690,22 @@ func aliasAlwaysClipped(info *types.Info, fd *ast.FuncDecl, obj types.Object, cl
 	return any && all
 }
 
+// assignsField: body holds an assignment to the GenerateSettings field name.
+func assignsField(info *types.Info, body ast.Node, name string) bool {
+	found := false
+	ast.Inspect(body, func(m ast.Node) bool {
+		if as, ok := m.(*ast.AssignStmt); ok {
+			for _, l := range as.Lhs {
+				if lsel, isSel := ast.Unparen(l).(*ast.SelectorExpr); isSel && lsel.Sel.Name == name && typeBaseName(info.TypeOf(lsel.X)) == "GenerateSettings" {
+					found = true
+				}
+			}
+		}
+		return !found
+	})
+	return found
+}
+
 // scratchPerCall: R4
 func scratchPerCall(c *core.Ctx, p *load.Prog) {
 	pkg := p.Bebop()
@@ -709,6 +726,7 @@ func scratchPerCall(c *core.Ctx, p *load.Prog) {
 		return true
 	})
 	n := 0
+	reach := reachableFuncs(p, pkg, fd)
 	for i := 0; i < st.NumFields(); i++ {
 		f := st.Field(i)
 		if f.Exported() || f.Embedded() {
@@ -722,7 +740,26 @@ func scratchPerCall(c *core.Ctx, p *load.Prog) {
 		n++
 		assigned := token.Pos(0)
 		fresh := false
-		ast.Inspect(fd.Body, func(m ast.Node) bool {
+		scanBody := fd.Body
+		inPhase := ""
+		// the assignment may sit in a phase function that Generate runs (directly
+		// or from a table of phases)
+		if !assignsField(pkg.TypesInfo, fd.Body, f.Name()) {
+			var names []string
+			byName := map[string]*ast.FuncDecl{}
+			for fn := range reach {
+				if d := p.Decl(fn); d != nil && d != fd && d.Body != nil && assignsField(pkg.TypesInfo, d.Body, f.Name()) {
+					names = append(names, fn.Name())
+					byName[fn.Name()] = d
+				}
+			}
+			sort.Strings(names)
+			if len(names) > 0 {
+				inPhase = names[0]
+				scanBody = byName[inPhase].Body
+			}
+		}
+		ast.Inspect(scanBody, func(m ast.Node) bool {
 			as, ok := m.(*ast.AssignStmt)
 			if !ok {
 				return true
@@ -743,6 +780,16 @@ func scratchPerCall(c *core.Ctx, p *load.Prog) {
 			}
 			return true
 		})
+		if inPhase != "" {
+			// made fresh in a phase: that it is made per call is decided; that
+			// the phase runs before the records are generated is not
+			c.Check("R4", "GenerateSettings."+f.Name()+" is made fresh in File.Generate before any record is generated", p.Pos(fd.Pos()), assigned != 0 && fresh,
+				"the scratch field is shared through the settings value: without a fresh value per call two Generate calls influence each other")
+			if assigned != 0 && fresh {
+				c.Undecide("GenerateSettings.%s is made fresh in %s, a function File.Generate reaches: whether that happens before the first record is generated is not recognised in this arrangement", f.Name(), inPhase)
+			}
+			continue
+		}
 		c.Check("R4", "GenerateSettings."+f.Name()+" is made fresh in File.Generate before any record is generated", p.Pos(fd.Pos()), assigned != 0 && fresh && (firstGen == 0 || assigned < firstGen),
 			"the scratch field is shared through the settings value: without a fresh value per call two Generate calls influence each other")
 	}
@@ -1636,6 +1683,25 @@ func scanSharedSlices(info *types.Info, tpkg *types.Package, files []*ast.File, 
 					if info.Types[x.Fun].IsType() || fn == "len" || fn == "cap" {
 						return true
 					}
+					// the searching and comparing functions of bytes, strings,
+					// slices and utf8 whose result carries no slice only read
+					// their operands: bytes.HasSuffix(tok, blockEnd)
+					if cal := load.Callee(info, x); cal != nil && cal.Pkg() != nil {
+						switch cal.Pkg().Path() {
+						case "bytes", "strings", "slices", "unicode/utf8":
+							if sig, ok := cal.Type().(*types.Signature); ok && sig.Recv() == nil {
+								plain := true
+								for k := 0; k < sig.Results().Len(); k++ {
+									if holdsSlice(sig.Results().At(k).Type(), 0) {
+										plain = false
+									}
+								}
+								if plain && !strings.HasPrefix(cal.Name(), "Sort") && cal.Name() != "Reverse" {
+									return true
+								}
+							}
+						}
+					}
 					for i, a := range x.Args {
 						g := carriesOut(a)
 						if g == nil {
@@ -1690,7 +1756,7 @@ func sharedSlicesStayHome(c *core.Ctx, p *load.Prog) {
 	for _, want := range []string{"lookup", "viaLocal", "intoState"} {
 		c.Check("R2d", "positive control: "+want+" is recognised", "fixtures/sharedslice/fx.go", hits[want], "the rule no longer matches the shape it is meant to find")
 	}
-	for _, not := range []string{"kindOf", "cloned", "measured"} {
+	for _, not := range []string{"kindOf", "cloned", "measured", "searched"} {
 		c.Check("R2d", "positive control: "+not+" is not reported", "fixtures/sharedslice/fx.go", !hits[not], "")
 	}
 }
